@@ -26,10 +26,10 @@ base64/multiaddr/peer-id decoders applied to string arguments, the sender's reco
 name and enterprise contracts, and two facts about the Go runtime and stored data that decide a
 slicing panic (`candCap`, `adminsReadable`).
 
-Repairs.  `u : List Site` is the list of sites whose guard is still missing in the tree being
-modelled.  `fixGuard u s bad r` is the *proposed repair* of site `s` (notes/C14.md has the diff): a
-check placed before the dangerous operation that returns an existing error.  It is active exactly
-when `s ∉ u`.  The pinned tree is `pinned`; after a `fix:` commit for a site, delete it from
+Repairs.  `u : List Site` is the list of sites whose guard is missing in the tree being modelled.
+`fixGuard u s bad r` is the repair of site `s` (notes/C14.md has the diff; six of them are now in
+/repo): a check placed before the dangerous operation that returns an existing error.  It is active
+exactly when `s ∉ u`.  The pinned tree is `pinned`; after a `fix:` commit for a site, delete it from
 `pinned` (one line) — the raw operation below the guard keeps its panic semantics, so the totality
 theorems for the repaired tree are proved, not assumed.
 -/
@@ -106,9 +106,16 @@ instance : Monad Outcome where
   bind := Outcome.bind
 end Outcome
 
-/-- The sites whose guard is missing on the pinned tree (each confirmed on the real code by the
-harness, class ids in `notes/C14.md`).  Repairing a site = deleting it here. -/
-def pinned : List Site := [.tNameUpdTo, .tNameOwner0, .vDaoVal, .eAdmin0, .eCheckArgs0, .rAddSlice, .gAdmins]
+/-- The sites that can still panic on the pinned tree.  Six guards proposed by this check were applied
+to /repo (commits b11917e3, 2586c6fa, 9f771520: `tNameUpdTo`, `tNameOwner0`, `eAdmin0`, `eCheckArgs0`,
+`gAdmins`, `vDaoVal`).  Left, both execution-only and recorded as known findings:
+ * `rAddSlice` — a BP vote for a peer id that is not 39 bytes (the guard would change which historical
+   voteBP transactions validate: it needs a hard-fork gate);
+ * `rSubNil`   — its consequence: a misframed old vote record makes the account's next vote/unstake
+   subtract from a nil tally entry.  (No guard of its own: it is excluded by the state invariant
+   `OldVotesOk`, which only the `rAddSlice` guard can establish.)
+Repairing a site = deleting it here. -/
+def pinned : List Site := [.rAddSlice, .rSubNil]
 
 /-- The proposed repair of site `s`: `if bad { return <existing error of class r> }`, present iff `s ∉ u`. -/
 def fixGuard (u : List Site) (s : Site) (bad : Bool) (r : Rej) : Outcome Unit :=
@@ -306,7 +313,7 @@ def typesSystem (u : List Site) (e : Env) (ci : CallInfo) : Outcome Unit :=
     rejectIf (!ci.args.all isStr) .payload
     rejectIf (!nodup (ci.args.filterMap str?)) .payload
     rejectIf (!(indices ci.args).all (candOk e)) .payload
-    -- proposed repair of rAddSlice: reject candidates that are not PeerIDLength bytes
+    -- proposed (NOT applied) repair of rAddSlice: reject candidates that are not PeerIDLength bytes
     fixGuard u .rAddSlice (!(indices ci.args).all fun i => (e.arg i).b58 == some peerIDLength) .payload
   | .voteDAO => do
     rejectIf (ci.args.length < 1) .args
